@@ -2287,7 +2287,15 @@ func (p *Parser) parseAssignExprOrParam() IExpr {
 		}
 		p.assumeArrowFunc = false
 		if tt == AsyncToken {
-			return p.parseAsyncExpression(OpAssign, data)
+			// async(async(async(… recurses without passing through parseExpression: count the nesting here
+			p.exprLevel++
+			if NestedExprLimit < p.exprLevel {
+				p.failMessage("too many nested expressions")
+				return nil
+			}
+			left := p.parseAsyncExpression(OpAssign, data)
+			p.exprLevel--
+			return left
 		}
 		return p.parseIdentifierExpression(OpAssign, data)
 	} else if p.tt != OpenBracketToken && p.tt != OpenBraceToken {
